@@ -73,7 +73,7 @@ _last = {'key': None, 'nt': False, 'classes': []}
 
 def config(tier):
     if tier == 'quick':
-        return dict(shards=8, examples=650, numba_threads=1, shrink_calls=200, soft_s=100)
+        return dict(shards=8, examples=1500, numba_threads=1, shrink_calls=200, soft_s=100)
     return dict(shards=16, examples=6500, numba_threads=1, shrink_calls=500, soft_s=780)
 
 
@@ -407,7 +407,7 @@ class _Bytes:
     def int_in_range(self, a, b):
         rng = b - a
         res, off = 0, 0
-        while off < rng.bit_length() and (rng >> off) > 0 and self.remaining() > 0:
+        while (rng >> off) > 0 and self.remaining() > 0:
             self.hi -= 1
             res = (res << 8) | self.d[self.hi]
             off += 8
@@ -423,7 +423,7 @@ class _Bytes:
 
 
 def _len_code(c):
-    return c if c < 48 else (c - 47) * 40
+    return c if c < 48 else 48 + (c - 48) * 40
 
 
 def decode_fuzz(provider):
@@ -446,7 +446,7 @@ def encode_fuzz(d):
     """Inverse of decode_fuzz for seeds (len codes must be representable)."""
     ints = [(ITEMS.index(d['item']), 1), (d['cbs'] - 1, 2), (d['shuffle'], 1), (d['slack'], 1), (d['rep'] - 1, 1), (len(d['chunks']), 1)]
     for ln, t in d['chunks']:
-        code = ln if ln < 48 else 47 + ln // 40
+        code = ln if ln < 48 else min(63, 48 + (ln - 48) // 40)
         ints.append(((t << 6) | code, 1))
     tail = b''
     for v, nb in ints:
@@ -591,7 +591,7 @@ def _desc(draw, tier='quick'):
         n = min(n, 40)
         cbs = item
     elif how == 'huge':
-        cbs = n * item + draw(st.integers(1, 5000))
+        cbs = (n + 1) * item + draw(st.integers(0, 5000))
     else:
         cbs = None
     shuffle = draw(st.sampled_from([0, 0, 0, 1, 2]))
